@@ -184,9 +184,9 @@ def execute_long_fil(sc, ctx) -> None:
 
 def generate(rng, tier) -> dict:
     r = rng.random()
-    if r < (0.003 if tier == "quick" else 0.01):
+    if r < (0.002 if tier == "quick" else 0.01):
         return generate_long(rng)
-    if r < (0.0045 if tier == "quick" else 0.015):
+    if r < (0.003 if tier == "quick" else 0.015):
         return generate_long_fil(rng)
     kind = rng.choice(["fil", "fil", "fil", "tim"])
     pulse = rng.random() < 0.12
